@@ -16,6 +16,14 @@ oer_encode(const asn_TYPE_descriptor_t *type_descriptor, const void *struct_ptr,
     /*
      * Invoke type-specific encoder.
      */
+    if(!type_descriptor->op->oer_encoder) {
+        /* OER is not defined for this type (SET, ANY) */
+        asn_enc_rval_t er;
+        er.encoded = -1;
+        er.failed_type = type_descriptor;
+        er.structure_ptr = struct_ptr;
+        return er;
+    }
     return type_descriptor->op->oer_encoder(
         type_descriptor, 0,
         struct_ptr, /* Pointer to the destination structure */
